@@ -48,8 +48,10 @@ theorem pow_unit (a x : Number) (e : Int) (h : Number.powi a e = .ok x) : x.unit
   unfold Number.powi at h
   split at h
   · cases h
-  · obtain ⟨v, _, hv⟩ := (Outcome.bind_eq_ok _ _ _).mp h
-    cases hv; rfl
+  · split at h
+    · cases h
+    · obtain ⟨v, _, hv⟩ := (Outcome.bind_eq_ok _ _ _).mp h
+      cases hv; rfl
 
 /-- roots divide every exponent and are refused unless every exponent is divisible -/
 theorem root_unit (a x : Number) (e : Int) (h : Number.root a e = .ok x) :
